@@ -296,7 +296,13 @@ func (m *Machine) conv(fr *frame, dst, src types.Type, x Val) Val {
 				f = float64(uint64(x))
 			}
 		case *Term:
-			panic(&pathEnd{kind: "inconclusive", msg: "symbolic integer converted to float at " + m.posStr(fr)})
+			// no floating-point theory: the integer is concretised by forking over its feasible values
+			c := m.concretize(x)
+			if _, s, _ := intKind(us); s {
+				f = float64(c)
+			} else {
+				f = float64(uint64(c))
+			}
 		default:
 			panic(fmt.Sprintf("conv to float from %T", x))
 		}
